@@ -43,7 +43,7 @@ func c13RandOpts(s *verifh.Session, base int) (*DumpOptions, string) {
 			return nil
 		}
 		ids[i] = base + i
-		return &c13LogWriter{base + i, log}
+		return &c13LogWriter{base + i, log, false}
 	}
 	o := &DumpOptions{
 		Output: mk(0), RequestOutput: mk(1), ResponseOutput: mk(2), RequestHeaderOutput: mk(3),
@@ -351,7 +351,7 @@ func TestVerif_C13_chan(t *testing.T) {
 			data := verifh.RandBytes(r, r.Intn(5), "")
 			ws, ds = append(ws, w), append(ds, data)
 			buf := []byte(data)
-			d.DumpTo(buf, &c13LogWriter{w, log})
+			d.DumpTo(buf, &c13LogWriter{w, log, false})
 			for j := range buf {
 				buf[j] = 0xEE
 			}
